@@ -19,6 +19,15 @@ type vV3 struct{ X int }
 type vV4 struct{ X int }
 
 var vC19Fail bool
+var vC19FailDec bool
+
+// vdD3 decorates *vV3; it fails when vC19FailDec is set.
+func vdD3(v *vV3) (*vV3, error) {
+	if vC19FailDec {
+		return nil, errors.New("vdD3 failed")
+	}
+	return v, nil
+}
 
 type vcCIn struct {
 	In
@@ -334,6 +343,22 @@ func verifC19run(maxRegs int, withFailure bool) {
 			verifWitness("rejected-registration")
 		}
 	}
+	// decorators are not drawn; a failing one must still be reported faithfully
+	decorated := false
+	if withFailure && verifNdBool("withdec") {
+		ds := verifNdInt("decscope", 3)
+		var derr error
+		switch ds {
+		case 0:
+			derr = c.Decorate(vdD3)
+		case 1:
+			derr = child.Decorate(vdD3)
+		default:
+			derr = grand.Decorate(vdD3)
+		}
+		verifObserve("decorate vdD3 scope=" + vItoa(ds) + " ok=" + vBoolStr(derr == nil))
+		decorated = derr == nil
+	}
 	// Visualize lists the root's constructors first, then the child's
 	var order []acc
 	for _, a := range accepted {
@@ -441,8 +466,16 @@ func verifC19run(maxRegs int, withFailure bool) {
 		return
 	}
 	// ---- a failing Invoke and its picture
-	vC19Fail = verifNdBool("ctorsfail")
-	target := verifNdInt("target", 4)
+	vC19Fail, vC19FailDec = false, false
+	failMode := 0
+	if decorated {
+		failMode = verifNdInt("failmode", 3)
+	} else if verifNdBool("ctorsfail") {
+		failMode = 1
+	}
+	vC19Fail = failMode == 1
+	vC19FailDec = failMode == 2
+	target := verifNdInt("target", 5)
 	var fn interface{}
 	switch target {
 	case 0:
@@ -451,8 +484,10 @@ func verifC19run(maxRegs int, withFailure bool) {
 		fn = func(*vV4) {}
 	case 2:
 		fn = func(*vV1) {}
-	default:
+	case 3:
 		fn = func(vcHIn) {}
+	default:
+		fn = func(*vV3) {}
 	}
 	scope := verifNdInt("invscope", 3)
 	var ierr error
@@ -467,7 +502,7 @@ func verifC19run(maxRegs int, withFailure bool) {
 		}
 		return ierr
 	})
-	vC19Fail = false
+	vC19Fail, vC19FailDec = false, false
 	verifObserve("invoke target=" + vItoa(target) + " class=" + vClassNames[oi.class])
 	if oi.class == vcOK || oi.class == vcPanicked {
 		return
@@ -497,7 +532,17 @@ func verifC19run(maxRegs int, withFailure bool) {
 		h.assert("C19.fail", cl.color == "red" || cl.color == "orange")
 	}
 	h.assert("C19.fail", len(d2.clusters) <= len(order))
-	if oi.class == vcOther {
+	// only a constructor that really failed is drawn as a root cause
+	for _, cl := range d2.clusters {
+		if cl.color == "red" {
+			h.assert("C19.fail", failMode == 1 && (cl.label == "vcD" || cl.label == "vcGF"))
+		}
+	}
+	if oi.class == vcOther && failMode == 2 {
+		// the decorated value is the root cause; its consumers failed transitively
+		h.assert("C19.fail", vHasStr(d2.red, "*dig.vV3"))
+		verifWitness("decorator-failure-picture")
+	} else if oi.class == vcOther {
 		// the failing constructor is the root cause
 		found := false
 		for _, cl := range d2.clusters {
